@@ -126,6 +126,13 @@ class BaseSamples:
         else:
             dtype = resolve_dtype(dtype, xp)
         logger.debug("Converting samples to {} namespace", xp)
+        # Fields added by subclasses (e.g. beta, log_evidence) are carried over
+        base_fields = {f.name for f in fields(BaseSamples)}
+        extra = {
+            f.name: getattr(self, f.name)
+            for f in fields(self)
+            if f.init and f.name not in base_fields
+        }
         return self.__class__(
             x=self.x,
             parameters=self.parameters,
@@ -135,6 +142,7 @@ class BaseSamples:
             xp=xp,
             device=self.device,
             dtype=dtype,
+            **extra,
         )
 
     def array_to_namespace(self, x, dtype=None):
